@@ -37,6 +37,11 @@ type Node struct {
 // Val is one data value with its Go type made explicit (JSON numbers would lose int / int64 / float64).
 //
 //	s string | i int | l int64 | f float64 (S = its decimal text) | b bool | n nil | m map | a list
+//
+// Values of other Go types (item fields, variables and list items are interface{}: the API takes any value):
+//
+//	i32 int32 | u uint | f32 float32 (S = decimal text) | as []string | ai []int | af []float64 (L = elements)
+//	am []map[string]interface{} (L = elements of type m) | ms map[string]string (M = entries of type s)
 type Val struct {
 	T string         `json:"t"`
 	S string         `json:"s,omitempty"`
@@ -126,8 +131,73 @@ func (v Val) goValue() interface{} {
 		return m
 	case "a":
 		return goList(v.L)
+	case "i32":
+		n, _ := strconv.ParseInt(v.S, 10, 32)
+		return int32(n)
+	case "u":
+		n, _ := strconv.ParseUint(v.S, 10, 32)
+		return uint(n)
+	case "f32":
+		f, _ := strconv.ParseFloat(v.S, 32)
+		return float32(f)
+	case "as":
+		out := make([]string, 0, len(v.L))
+		for _, x := range v.L {
+			out = append(out, x.S)
+		}
+		return out
+	case "ai":
+		out := make([]int, 0, len(v.L))
+		for _, x := range v.L {
+			n, _ := strconv.Atoi(x.S)
+			out = append(out, n)
+		}
+		return out
+	case "af":
+		out := make([]float64, 0, len(v.L))
+		for _, x := range v.L {
+			f, _ := strconv.ParseFloat(x.S, 64)
+			out = append(out, f)
+		}
+		return out
+	case "am":
+		out := make([]map[string]interface{}, 0, len(v.L))
+		for _, x := range v.L {
+			m := make(map[string]interface{}, len(x.M))
+			for k, y := range x.M {
+				m[k] = y.goValue()
+			}
+			out = append(out, m)
+		}
+		return out
+	case "ms":
+		out := make(map[string]string, len(v.M))
+		for k, x := range v.M {
+			out[k] = x.S
+		}
+		return out
 	}
 	return nil // "n"
+}
+
+// typed reports whether the value (or a value inside it) has a Go type beyond string / int / int64 / float64 /
+// bool / map[string]interface{} / []interface{}.
+func (v Val) typed() bool {
+	switch v.T {
+	case "i32", "u", "f32", "as", "ai", "af", "am", "ms":
+		return true
+	}
+	for _, x := range v.M {
+		if x.typed() {
+			return true
+		}
+	}
+	for _, x := range v.L {
+		if x.typed() {
+			return true
+		}
+	}
+	return false
 }
 
 func goList(l []Val) []interface{} {
